@@ -64,7 +64,7 @@ fn set_mtime(p: &Path, secs: i64) {
 pub fn history(ctx: &mut Ctx) {
     let mut rng = rng_for(ctx.seed, "history");
     ctx.rule = "operation sequences (3-8 steps) over an evolving tree (files added, modified, removed between steps): create (optionally --split, --solid, --keep-timestamp), append (explicit files or -r dir), \
-                update (-r dir or explicit files; optional --exclude, --newer-mtime with controlled whole-second mtimes), delete (glob); after EVERY step the archive (single file or part set) is read with the library \
+                update (-r dir or explicit files; optional --exclude, --newer-mtime with controlled whole-second mtimes), delete (one name, --unsolid or --keep-solid; specification oracle: the previous entries without it, in order); every fifth history starts from a solid archive and a partial update of the block's first entry, then deletes the first entry; after EVERY step the archive (single file or part set) is read with the library \
                 and compared — ordered (name, content) list — with the model's prediction and with the append/update specification oracle; non-trivial = every step; distinct by request line".into();
     let n = if ctx.thorough { 400 } else { 30 };
     for case in 0..n {
@@ -80,13 +80,15 @@ pub fn history(ctx: &mut Ctx) {
             set_mtime(&p, *clock);
         };
         // initial tree
-        let k = rng.gen_range(1..5);
+        // every fifth history starts from a solid archive with several entries and a partial update of the block's first entry
+        let forced_solid = case % 5 == 1;
+        let k = if forced_solid { rng.gen_range(3..5) } else { rng.gen_range(1..5) };
         let mut pool: Vec<&str> = POOL.to_vec();
         for _ in 0..k { let i = rng.gen_range(0..pool.len() - 1); let f = pool.remove(i); write(f, &mut rng, &mut clock); }
         std::fs::create_dir_all(root.join("t")).unwrap();
         let keep_ts = rng.gen_bool(0.5);
-        let split = case % 4 == 0 || rng.gen_bool(0.15);
-        let solid = !split && rng.gen_bool(0.2);
+        let split = !forced_solid && (case % 4 == 0 || rng.gen_bool(0.15));
+        let solid = forced_solid || (!split && rng.gen_bool(0.2));
         let mut args: Vec<String> = vec!["--quiet".into(), "create".into(), "a.pna".into(), "-r".into(), "t".into(), "--overwrite".into()];
         if keep_ts { args.push("--keep-timestamp".into()); }
         if split { args.push("--split".into()); args.push("150".into()); }
@@ -102,7 +104,8 @@ pub fn history(ctx: &mut Ctx) {
         let nsteps = rng.gen_range(2..7);
         for _ in 0..nsteps {
             let before = state_pairs(&state);
-            let op = if split && steps.len() == 1 { 0 } else { rng.gen_range(0..11) };
+            let forced_partial = forced_solid && steps.len() == 1;
+            let op = if split && steps.len() == 1 { 0 } else if forced_partial { 5 } else if forced_solid && steps.len() == 2 { 9 } else { rng.gen_range(0..11) };
             if op == 10 {
                 // ---- re-create over the existing output with --overwrite, from a (usually smaller) tree
                 for f in before.iter().map(|(n, _)| n.clone()).collect::<Vec<_>>() { if rng.gen_bool(0.5) { let _ = std::fs::remove_file(root.join(&f)); } }
@@ -144,11 +147,11 @@ pub fn history(ctx: &mut Ctx) {
             } else if op < 8 {
                 // ---- evolve the tree, then update
                 let existing: Vec<String> = before.iter().map(|(n, _)| n.clone()).collect();
-                for f in existing.iter() { if rng.gen_bool(0.35) && root.join(f).exists() { write(f, &mut rng, &mut clock); } }
-                if rng.gen_bool(0.4) && !pool.is_empty() { let i = rng.gen_range(0..pool.len()); let f = pool.remove(i); if f.starts_with("t/") { write(f, &mut rng, &mut clock); } }
-                if rng.gen_bool(0.3) { if let Some(f) = existing.iter().find(|f| root.join(f).exists()) { let _ = std::fs::remove_file(root.join(f)); } }
-                let whole = rng.gen_bool(0.6);
-                let given: Vec<String> = if whole { vec!["t".into()] } else { existing.iter().filter(|f| root.join(f).exists()).take(2).cloned().collect() };
+                for (i, f) in existing.iter().enumerate() { if (if forced_partial { i == 0 } else { rng.gen_bool(0.35) }) && root.join(f).exists() { write(f, &mut rng, &mut clock); } }
+                if !forced_partial && rng.gen_bool(0.4) && !pool.is_empty() { let i = rng.gen_range(0..pool.len()); let f = pool.remove(i); if f.starts_with("t/") { write(f, &mut rng, &mut clock); } }
+                if !forced_partial && rng.gen_bool(0.3) { if let Some(f) = existing.iter().find(|f| root.join(f).exists()) { let _ = std::fs::remove_file(root.join(f)); } }
+                let whole = !forced_partial && rng.gen_bool(0.6);
+                let given: Vec<String> = if whole { vec!["t".into()] } else { existing.iter().filter(|f| root.join(f).exists()).take(if forced_partial { 1 } else { 2 }).cloned().collect() };
                 if given.is_empty() { continue; }
                 let targets_paths = portable_network_archive::verif::collect_items(&given.iter().map(|f| root.join(f).to_string_lossy().to_string()).collect::<Vec<_>>(), whole, false).unwrap();
                 let targets: Vec<(String, String)> = targets_paths.iter().map(|p| { let rel = Path::new(p).strip_prefix(&root).unwrap().to_string_lossy().to_string(); (rel, body(&std::fs::read(p).unwrap())) }).collect();
@@ -187,11 +190,18 @@ pub fn history(ctx: &mut Ctx) {
                 // ---- delete
                 let names: Vec<String> = before.iter().map(|(n, _)| n.clone()).collect();
                 if names.is_empty() { continue; }
-                let victim = names[rng.gen_range(0..names.len())].clone();
-                let a = vec!["--quiet".to_string(), "experimental".into(), "delete".into(), "--unsolid".into(), archive_arg.into(), victim.clone()];
+                // (in the forced solid histories: an entry that is not the last of its block)
+                let victim = if forced_solid && steps.len() == 2 { names[0].clone() } else { names[rng.gen_range(0..names.len())].clone() };
+                let strategy = if rng.gen_bool(0.5) { "--unsolid" } else { "--keep-solid" };
+                let a = vec!["--quiet".to_string(), "experimental".into(), "delete".into(), strategy.into(), archive_arg.into(), victim.clone()];
                 let sel: Vec<String> = names.iter().filter(|n| **n == victim).cloned().collect();
                 model_req = format!("history delete {} {}", nwire(&sel), uwire(&before));
                 argv_s = a;
+                let v2 = victim.clone();
+                oracle = Some(Box::new(move |b, a| {
+                    let want: Vec<&(String, String)> = b.iter().filter(|(n, _)| *n != v2).collect();
+                    if want == a.iter().collect::<Vec<_>>() { None } else { Some("after delete the archive is not the previous entries without the named one, in order".into()) }
+                }));
             }
             let argv: Vec<&str> = argv_s.iter().map(|s| s.as_str()).collect();
             let r = run_pna(&sbx, &sbx.root, &argv, None, 60, &[]);
